@@ -47,9 +47,11 @@ def gen_script(rng):
     else:
         # header field offsets inside a record header (K=4): magic 0, klen 8, key 16, msize 20, dsize 28, flags 36,
         # off 37, ts 45, dcrc 53, hcrc 57
-        cls = rng.choice(['magic', 'key', 'ts', 'dcrc', 'hcrc', 'flags', 'off', 'off', 'meta', 'data', 'blobmagic'])
+        cls = rng.choice(['magic', 'key', 'ts', 'dcrc', 'hcrc', 'flags', 'off', 'off', 'meta', 'data', 'blobmagic',
+                          'blobversion', 'blobflags', 'klen', 'msize', 'dsize'])
         pos = {'magic': s + 2, 'key': s + 17, 'ts': s + 46, 'dcrc': s + 54, 'hcrc': s + 58, 'flags': s + 36,
-               'off': s + 37 + rng.randrange(8),
+               'off': s + 37 + rng.randrange(8), 'blobversion': 8 + rng.randrange(4), 'blobflags': 12 + rng.randrange(8),
+               'klen': s + 8 + rng.randrange(8), 'msize': s + 20 + rng.randrange(8), 'dsize': s + 28 + rng.randrange(8),
                'meta': rng.randrange(he, me), 'data': me + (ln // 2) if ln > 0 else s + 46, 'blobmagic': 1}[cls]
         if cls == 'data' and ln == 0: cls = 'ts'
         L.append('#DAMAGE flip %s rec=%d' % (cls, j))
@@ -165,6 +167,10 @@ def oracle(lines, io, spec=None):
         # finding F26: the metadata of a record is covered by no checksum; a flipped byte that leaves the map decodable
         # in exactly its bytes (a content byte of a key or of a value) cannot be noticed by any reader
         tag = '[F26] ' if (t[0] == 'flip' and damaged_rec is not None and meta_still_ok(lines, layout[damaged_rec], pos, int(t[4], 16))) else ''
+        # finding F31: the version and flags fields of the 20-byte blob header are covered by no checksum either, and the
+        # tools accept every version on purpose (they are also used on blobs of older versions)
+        if t[0] == 'flip' and 8 <= pos < 20:
+            tag = '[F31] '
         fails.append('%svalidate_blob accepts a damaged blob (%s)' % (tag, dmg))
     if not damaged and o is not None and not o.endswith(' ok'):
         fails.append('validate_blob rejects a well-formed (shorter) blob (%s): %s' % (dmg, o))
@@ -181,7 +187,8 @@ def oracle(lines, io, spec=None):
     # what must be served from the recovered blob
     open_i = next((i for i, l in enumerate(lines) if l == 'open' and i > idx[rec_line]), None)
     if open_i is None or open_i >= len(io) or io[open_i] != 'open ok':
-        fails.append('the storage cannot open the recovered blob: %s' % (io[open_i] if open_i is not None and open_i < len(io) else None))
+        tag = '[F31] ' if (t[0] == 'flip' and 8 <= pos < 12) else ''
+        fails.append('%sthe storage cannot open the recovered blob: %s' % (tag, io[open_i] if open_i is not None and open_i < len(io) else None))
         return fails
     reads = {}
     for i in range(open_i + 1, min(len(lines), len(io))):
@@ -193,11 +200,14 @@ def oracle(lines, io, spec=None):
     if skip and t[0] == 'flip' and damaged_rec is not None:
         # after an isolated damaged record the later records must be kept -- when the record can be stepped over
         # (sizes intact) -- and served with their original bytes (finding F7: stale blob_offset)
-        cls_sizes_ok = True
+        # finding F32: the damaged record is stepped over by its OWN key, meta and data sizes; when the flipped byte is in
+        # one of those three fields the step lands in the middle of the data and the recovery ends there
+        rs = layout[damaged_rec][3]
+        in_sizes = (rs + 8 <= pos < rs + 16) or (rs + 20 <= pos < rs + 36)
         for (k2, l2, s2, *_r) in after:
             got = reads.get(k2)
             if got != 'R Found %d %d' % (l2, s2):
-                fails.append('record %s after the skipped damaged record is not served with its original bytes from the recovered blob: %s' % (k2, got))
+                fails.append('%srecord %s after the skipped damaged record is not served with its original bytes from the recovered blob: %s' % ('[F32] ' if in_sizes else '', k2, got))
                 break
     for k2, got in reads.items():
         if '?' in got:
